@@ -347,15 +347,18 @@ def gen_temporal_column(rng):
         pool = ["2020-01-01T00:00:00", "2021-05-06T00:00:00", "1999-12-31T00:00:00"]
         if rng.random() < 0.5:
             pool += ["2020-01-01T10:30:00", "2020-01-01T00:00:00.000001", "2020-01-01T00:00:00.250"]
+        nano = rng.random() < 0.25        # a nanosecond after midnight: no Date (dt.time has microsecond resolution)
         if kind == "datetimetz" and rng.random() < 0.5:
             # days whose local midnight does not exist / is ambiguous in zones that switch at midnight
             pool += ["2018-11-04T15:00:00", "2019-03-31T12:00:00", "2018-11-04T03:00:00"]
         vals = [["dt", rng.choice(pool)] for _ in range(n)]
         if n >= 6 and rng.random() < 0.3:
             vals[rng.randrange(5, n)] = ["dt", "2020-03-03T03:03:03"]
+        if nano and vals:
+            vals[rng.randrange(len(vals))] = ["ts", "2020-01-01 00:00:00.000000001"]
         vals = with_nulls(rng, vals, [["NaT"]])
         dtype = "datetime64[ns]" if kind == "datetime" else ["datetimetz", rng.choice(["UTC", "Europe/Amsterdam", "America/Sao_Paulo", "Asia/Beirut", "America/Havana"])]
-        if kind == "datetime" and rng.random() < 0.3:
+        if kind == "datetime" and rng.random() < 0.3 and not nano:
             dtype = "datetime64[s]"
     elif kind == "timedelta":
         vals = with_nulls(rng, [["td", rng.choice([0, 5, 86400])] for _ in range(n)], [["NaT"]])
